@@ -1,6 +1,7 @@
 import FV.Props.Catalog
 import FV.IoArb
 import FV.IoRecvBad
+import FV.AddrIndep
 /-! # C10 — a receiver fed arbitrary bytes -/
 namespace FV.Props
 open FV
@@ -59,6 +60,25 @@ theorem C10_stream_goes_bad (t : Ty) (h : t.WF) (hmin : 0 < t.dict.minSize) (msg
     (evs : List ReadEv) (hevs : Covers evs ((flat msgs).length + bad.length)) :
     recvLoop t.dict (msgs.length + 1) evs ⟨base, cap, 0, []⟩ (flat msgs ++ (bad ++ tl)) = msgs.map .msg ++ [.parse e] :=
   FV.C10_stream_goes_bad t h hmin msgs hmsgs bad e hh hbad tl base cap hbase hfit hfitb evs hevs
+
+/-- the same with the byte strings classified at *some* aligned address each (validation does not depend on the address beyond
+its residue modulo the alignment, `Ty.addrIndep`) -/
+theorem C10_stream_goes_bad_anywhere (t : Ty) (h : t.WF) (hmin : 0 < t.dict.minSize) (msgs : List Bytes)
+    (hmsgs : ∀ m ∈ msgs, ∃ a, a % t.dict.align = 0 ∧ t.dict.validate ⟨a, m⟩ = .ok () ∧ t.dict.size ⟨a, m⟩ = .ok m.length)
+    (bad : Bytes) (e : Err) (hh : e.kind ≠ .insufficientSize)
+    (hbad : ∃ a, a % t.dict.align = 0 ∧ t.dict.validate ⟨a, bad⟩ = .err e)
+    (tl : Bytes) (base cap : Nat) (hbase : base % t.dict.align = 0) (hfit : ∀ m ∈ msgs, 2 * m.length ≤ cap)
+    (hfitb : 2 * bad.length ≤ cap)
+    (evs : List ReadEv) (hevs : Covers evs ((flat msgs).length + bad.length)) :
+    recvLoop t.dict (msgs.length + 1) evs ⟨base, cap, 0, []⟩ (flat msgs ++ (bad ++ tl)) = msgs.map .msg ++ [.parse e] := by
+  apply FV.C10_stream_goes_bad t h hmin msgs _ bad e hh _ tl base cap hbase hfit hfitb evs hevs
+  · intro m hm a' ha'
+    obtain ⟨a, ha, hv, hz⟩ := hmsgs m hm
+    obtain ⟨e1, e2⟩ := validate_any_addr t h m a a' ha ha'
+    rw [← e1, ← e2]; exact ⟨hv, hz⟩
+  · intro a' ha'
+    obtain ⟨a, ha, hv⟩ := hbad
+    rw [← (validate_any_addr t h bad a a' ha ha').1]; exact hv
 
 /-- non-vacuity: `FlatVec<bool, u8>`; `[1, 5]` announces one element which is not a bool: the hypothesis on `bad` holds at every
 address … -/
